@@ -61,6 +61,7 @@ def position_projects(placements, rng):
             ss, targets = stmt_for(pl["form"], i, importer)
             for s in ss:
                 s["pos"] = list(pl["pos"])
+                s["lay"] = pl.get("lay", "line")
             stmts += ss
             files.update(tuple(t) for t in targets)
         projects.append({"root": "r", "dirs": dirs, "files": [{"name": list(f), "py": True} for f in sorted(files)],
@@ -77,14 +78,19 @@ def run(ctx):
     if len(placements) != sum(1 for _ in placements) or not placements:
         raise tlc.MachineryError("no placements emitted")
     rng.shuffle(placements)
+    # files in which NO import statement starts a physical line (all behind a semicolon or on the header line of a
+    # compound statement) are kept apart from the others: a scanner that looks at lines instead of the syntax tree
+    # would still find something in a mixed file
+    unanchored = [p for p in placements if p.get("lay") in ("semicolon", "inline")]
+    anchored = [p for p in placements if p.get("lay") not in ("semicolon", "inline")]
     specs = []
-    for p in position_projects(placements, rng):
+    for p in position_projects(unanchored, rng) + position_projects(anchored, rng):
         ep = sc.ScanEpisode(p)
         ep.scan()
         specs.append(ep.spec)
     n_rand = 200 if ctx.quick else 4000
     for _ in range(n_rand):
-        p = projgen.random_project(rng, max_depth=rng.choice([2, 3, 4, 5]), externals=rng.random() < 0.5,
+        p = projgen.random_project(rng, max_depth=rng.choice([2, 3, 4, 5]), externals=rng.random() < 0.5, odd=rng.random() < 0.2,
                                    n_stmts=rng.randint(4, 40), rel_abs=True)
         ep = sc.ScanEpisode(p)
         subs = [d for d in p["dirs"] if len(d) > 1] + p.get("rel_dirs", [])
@@ -104,9 +110,10 @@ def run(ctx):
     cov = {"real_source_trees": wtrees, "states": mc.distinct + pr.distinct + tr.states, "transitions": mc.generated + pr.generated + tr.transitions,
            "model_states": mc.distinct + pr.distinct, "traces_validated_against_impl": len(episodes),
            "trace_events": tr.events, "statement_list_slots": slots, "position_depth": depth,
-           "placements_replayed": len(placements), "random_projects": n_rand, **st,
+           "placements_replayed": len(placements),
+           "layouts": {y: sum(1 for p in placements if p.get("lay") == y) for y in pj.LAYOUTS}, "random_projects": n_rand, **st,
            "evaluations": st["statements"], "distinct_nontrivial": len(placements) + st["statements"],
-           "rule": "one case = one import statement <form, position (stack of statement-list slots), importing file>; "
+           "rule": "one case = one import statement <form, position (stack of statement-list slots), layout, importing file>; "
                    "each placement imports its own target module, so a lost or invented edge identifies its position",
            "exhaustive": False,
            "exhaustive_part": f"every position up to nesting depth {depth} over the {len(slots)} statement-list slots of this "
